@@ -84,7 +84,9 @@ MUTANTS = {
     ],
     'C10': [
         dict(name='wrong-dest-on-one-edge', file='pl/state.dot',
-             old="                           source=gitting,\n                           dest=running];", new="                           source=gitting,\n                           dest=loading];"),
+             old="                           source=gitting,\n                           dest=running,\n", new="                           source=gitting,\n                           dest=loading,\n"),
+        dict(name='one-edge-loses-its-guard', file='pl/state.dot', old="                            after=reload,\n                            before=at_rest_only];", new="                            after=reload];"),
+        dict(name='guard-only-refuses-exiting', file='pl/state.py', old="        if self.transitioning != Status.active:\n            raise transitions.MachineError(\n                f'While in {self.state} cannot take", new="        if self.transitioning == Status.exiting:\n            raise transitions.MachineError(\n                f'While in {self.state} cannot take"),
         dict(name='archive-done-ignores-prior', file='pl/state.py', old="        getattr(self, self.__prior + '_trigger')()\n", new="        self.running_trigger()\n"),
         dict(name='load-done-keeps-entering', file='pl/state.py',
              old="        def done(*_args, **_kwds):\n            self.transitioning = Status.active\n            self.contemplation_trigger()\n",
